@@ -1071,3 +1071,64 @@ Lemma declared_example :
     [ONone; ONone; OBool true; ONone; ONone; OBool true;
      OArray [3] F4 [Some 2; Some 4; Some 6]; OArray [2] U1 [Some 255; Some 3]].
 Proof. split; vm_compute; reflexivity. Qed.
+
+(* ------------------------------------------------------------------------- *)
+(* the identity values of a single packing attribute (repository 0554e88)      *)
+(* ------------------------------------------------------------------------- *)
+(* With only one packing attribute the data type presented does not depend on
+   the attribute's VALUE (a scale of exactly 1 / an offset of exactly 0 gives
+   the type the arithmetic would have given) ... *)
+Lemma single_attribute_type u v t z z' :
+  realised_dt v {| p_unsigned := u; p_scale := Some (t, z); p_offset := None |} =
+  realised_dt v {| p_unsigned := u; p_scale := Some (t, z'); p_offset := None |} /\
+  realised_dt v {| p_unsigned := u; p_scale := None; p_offset := Some (t, z) |} =
+  realised_dt v {| p_unsigned := u; p_scale := None; p_offset := Some (t, z') |}.
+Proof.
+  unfold realised_dt; cbn [p_scale p_offset]. split.
+  - destruct (negb (z =? 1)), (negb (z' =? 1)); reflexivity.
+  - destruct (negb (z =? 0)), (negb (z' =? 0)); reflexivity.
+Qed.
+
+(* ... and the identity value leaves every element that the presented type can
+   hold as it is stored (as viewed under _Unsigned). *)
+Lemma wrap_id d x :
+  match dkind_of d with
+  | KF => True
+  | KU => 0 <= x < 2 ^ (8 * dsize d)
+  | KI => - 2 ^ (8 * dsize d) / 2 <= x < 2 ^ (8 * dsize d) / 2
+  end -> wrap d x = x.
+Proof.
+  unfold wrap. assert (Hm : 2 ^ (8 * dsize d) = 2 * (2 ^ (8 * dsize d) / 2)).
+  { destruct d; reflexivity. }
+  assert (Hp : 0 < 2 ^ (8 * dsize d) / 2) by (destruct d; reflexivity).
+  destruct (dkind_of d); intros H.
+  - replace (- 2 ^ (8 * dsize d) / 2) with (- (2 ^ (8 * dsize d) / 2)) in H.
+    + rewrite Z.mod_small by lia. lia.
+    + destruct d; reflexivity.
+  - apply Z.mod_small. exact H.
+  - reflexivity.
+Qed.
+
+Lemma single_identity_keeps_values u v t x :
+  let x' := if is_unsigned_view v {| p_unsigned := u; p_scale := Some (t, 1); p_offset := None |}
+            then x mod 2 ^ (8 * dsize v) else x in
+  let d := promote (view_dt v {| p_unsigned := u; p_scale := Some (t, 1); p_offset := None |}) t in
+  wrap d x' = x' ->
+  unpack_z v {| p_unsigned := u; p_scale := Some (t, 1); p_offset := None |} x = x' /\
+  unpack_z v {| p_unsigned := u; p_scale := None; p_offset := Some (t, 0) |} x = x'.
+Proof.
+  intros x' d H. unfold unpack_z. cbn [p_scale p_offset]. simpl (negb (1 =? 1)). simpl (negb (0 =? 0)).
+  cbn iota. split; exact H.
+Qed.
+
+(* With BOTH attributes present the presented type still depends on their values
+   (int16 data, float32 scale_factor, float64 add_offset: float32 at the identity
+   values, float64 otherwise) - which is why read must look at the values. *)
+Lemma both_attributes_type_depends_on_values :
+  realised_dt I2 {| p_unsigned := false; p_scale := Some (F4, 1); p_offset := Some (F8, 0) |} = F4 /\
+  realised_dt I2 {| p_unsigned := false; p_scale := Some (F4, 2); p_offset := Some (F8, 0) |} = F8 /\
+  realised_dt I4 {| p_unsigned := false; p_scale := Some (F4, 1); p_offset := None |} = F8 /\
+  realised_dt I4 {| p_unsigned := false; p_scale := Some (F4, 3); p_offset := None |} = F8 /\
+  unpack_z I4 {| p_unsigned := false; p_scale := Some (I2, 1); p_offset := None |} 70000 = 70000 /\
+  unpack_z I2 {| p_unsigned := true; p_scale := Some (I2, 1); p_offset := None |} (-5) = 65531.
+Proof. vm_compute. repeat split; reflexivity. Qed.
